@@ -12,13 +12,13 @@ TRUSTED = "Trusted base: CPython 3.12 ast + the may-raise/effect table sa/tables
 META = {
     "C01": dict(
         technique="path-sensitive dominance/dataflow over the envelope verifier (ast walker, access-path terms, event matching against primitive-level oracle); custom rules",
-        text="Decides the structural soundness argument of threshold verification for every input at once: every insertion into the counted-signer set (found by dataflow from the accept comparison) is dominated by key grammar, entry grammar for the mode, membership in the caller's authorized list and a successful ed25519 verify event over this key, this entry and canonserialize(envelope['signed']); every accepting exit is dominated by len(set) >= the caller's threshold; the two primitives cannot return without verify() and do not swallow InvalidSignature.",
+        text="Decides the structural soundness argument of threshold verification for every input at once: every insertion into the counted-signer set (found by dataflow from the accept comparison) is dominated by key grammar, entry grammar for the mode (exactly the raw or the OpenPGP field set), membership in the caller's authorized list and a successful ed25519 verify event over this key, this entry and canonserialize(envelope['signed']); every accepting exit is dominated by len(set) >= the caller's threshold; the two primitives cannot return without verify() and do not swallow InvalidSignature.",
         note="Decides the dominance/dataflow conditions, not the cryptography: that Ed25519 verification itself is sound is assumed (A2). Counter-based accumulators are not recognised (reported as no verdict).",
         ref="5 C01",
     ),
     "C02": dict(
         technique="escape analysis of the per-entry loop, exhaustive 128-row decision table extracted from loop-body paths, sibling writer/reader agreement, stdout taint, static import closure; custom rules",
-        text="Shows that nothing a junk entry contains can abort or veto verification: the per-entry loop has an empty escape set for an unconstrained key/value, its decision function counts every entry the specification counts and skips or counts the others without leaving the loop (all 128 atom valuations), the only post-loop rejection is len(counted) < threshold exactly, the pre-loop argument checks demand no more of the authorized-key list than 'a list of hex keys', signer and verifier agree on serializer/field/codec/filing, printed text is ASCII-safe, and every module chain is in the static import closure.",
+        text="Shows that nothing a junk entry contains can abort or veto verification: the per-entry loop has an empty escape set for an unconstrained key/value, its decision function counts every entry the specification counts and skips or counts the others without leaving the loop (all 128 atom valuations), the only post-loop rejection is len(counted) < threshold exactly, the pre-loop argument checks demand no more of the authorized-key list than 'a list of hex keys', signer and verifier agree on serializer/field/codec/filing in its published configuration (C07-R1 re-run), printed text is ASCII-safe, and every module chain is in the static import closure.",
         note="Not decided: that an arbitrary conforming signer's bytes verify and that the shipped fixtures verify (crypto library, needs execution). An extra pre-loop rejection that can never coincide with sufficient signatures would still be reported.",
         ref="5 C02",
     ),
@@ -72,7 +72,7 @@ META = {
     ),
     "C07": dict(
         technique="effective-configuration extraction of the one json.dumps call (explicit keywords merged over inspect.signature defaults), purity of the serializer's cone, message-sink dataflow through forwarding parameters; custom rules",
-        text="Decides the part of the wire-format property that is in this source: canonserialize is json.dumps(obj, sort_keys=True, indent=2, ensure_ascii=True, default separators, allow_nan=True, ...).encode(utf-8) and nothing else; it reads no ambient state; every message reaching key.sign, key.verify (directly or as first digest chunk) or the GnuPG signer is a canonserialize(...) term at every library call site, so there is exactly one serializer on both sides; canonserialize fails only where json.dumps does (no pre-check of its own turns serializable values away), and no module of the package calls an interpreter-wide setter (sys.set_int_max_str_digits, locale, ...) or patches a library module.",
+        text="Decides the part of the wire-format property that is in this source: canonserialize is json.dumps(obj, sort_keys=True, indent=2, ensure_ascii=True, default separators, allow_nan=True, ...).encode(utf-8) and nothing else; it reads no ambient state; every message reaching key.sign, key.verify (directly or as first digest chunk) or the GnuPG signer is a canonserialize(...) term at every library call site, so there is exactly one serializer on both sides and the one loader reads files in binary mode with default hooks (C08-R2 re-run); canonserialize fails only where json.dumps does (no pre-check of its own turns serializable values away), and no module of the package calls an interpreter-wide setter (sys.set_int_max_str_digits, locale, ...) or patches a library module.",
         note="Partial: determinism across hash seeds/locales, injectivity, parse-serialize fixpoint and float/surrogate rendering are properties of CPython's json module given this configuration; they are not decided (static reach ends at the configuration).",
         ref="5 C07",
     ),
